@@ -134,3 +134,31 @@ Example C03_fields_ex6 :
                   (Fsyn, FvB true); (Ffin, FvB false); (Fwindow, FvN 4096); (Fchecksum, FvN 43981);
                   (Furgent, FvN 7); (Foptions, FvBytes [])])].
 Proof. split; [apply bytes_okb_spec; vm_compute; reflexivity|]. eexists. split; vm_compute; reflexivity. Qed.
+
+(* Linux SLL / IPv4 / UDP, and ether type 0x8100: VLAN / MACsec (SC, unmodified) / ARP *)
+Definition ex_sll : bytes := [0;4; 0;1; 0;6; 1;2;3;4;5;6;0;0; 8;0] ++ skipn 18 ex_pkt.
+Example C03_fields_ex_sll :
+  exists p, SlicedPacket.from_linux_sll ex_sll = Ok p /\
+    fields_of_packet p = Ok (spec_fields ex_sll (view p)) /\
+    hd_error (spec_fields ex_sll (view p)) =
+      Some (LSll, [(Fpacket_type, FvN 4); (Fhw_type, FvN 1); (Faddr_len, FvN 6);
+                   (Faddr, FvBytes [1; 2; 3; 4; 5; 6; 0; 0]); (Fprotocol, FvN 2048)]) /\
+    map fst (spec_fields ex_sll (view p)) = [LSll; LIpv4; LUdp].
+Proof. eexists. split; [vm_compute; reflexivity|repeat split; vm_compute; reflexivity]. Qed.
+
+Definition ex_et : bytes :=
+  [164;210; 136;229; 32;0; 0;0;0;9; 1;2;3;4;5;6;7;8; 8;6; 0;1; 8;0; 6;4; 0;2] ++
+  [1;2;3;4;5;6; 10;0;0;1; 7;8;9;10;11;12; 10;0;0;2].
+Example C03_fields_ex_et :
+  exists p, SlicedPacket.from_ether_type 33024 ex_et = Ok p /\
+    fields_of_packet p =
+      Ok [(LVlan, [(Fpcp, FvN 5); (Fdei, FvB false); (Fvid, FvN 1234); (Fether_type, FvN 35045)]);
+          (LMacsec, [(Fv, FvB false); (Fes, FvB false); (Fsc, FvB true); (Fscb, FvB false); (Fe, FvB false);
+                     (Fc, FvB false); (Fan, FvN 0); (Fsl, FvN 0); (Fpn, FvN 9);
+                     (Fsci, FvN 72623859790382856)]);
+          (LArp, [(Fhw_type, FvN 1); (Fproto_type, FvN 2048); (Fhw_size, FvN 6); (Fproto_size, FvN 4);
+                  (Foperation, FvN 2); (Fsender_hw, FvBytes [1; 2; 3; 4; 5; 6]);
+                  (Fsender_proto, FvBytes [10; 0; 0; 1]); (Ftarget_hw, FvBytes [7; 8; 9; 10; 11; 12]);
+                  (Ftarget_proto, FvBytes [10; 0; 0; 2])])] /\
+    fields_of_packet p = Ok (spec_fields ex_et (view p)).
+Proof. eexists. split; [vm_compute; reflexivity|split; vm_compute; reflexivity]. Qed.
